@@ -14,6 +14,15 @@ import (
 )
 
 // VerifDir is where MANIFEST, evidence, replays and known findings live.
+// OutDir is where evidence and replays are written (VERIF_OUT overrides it,
+// used when checks are pointed at a deliberately changed tree).
+func OutDir() string {
+	if d := os.Getenv("VERIF_OUT"); d != "" {
+		return d
+	}
+	return VerifDir()
+}
+
 func VerifDir() string {
 	if d := os.Getenv("VERIF_DIR"); d != "" {
 		return d
@@ -126,7 +135,7 @@ func (r *Run) Report(v Violation) {
 	art := map[string]any{"property": r.Prop, "engine": r.Engine, "signature": v.Sig, "message": v.Msg, "replay": v.Replay}
 	b, _ := json.MarshalIndent(art, "", " ")
 	sum := sha1.Sum(b)
-	dir := filepath.Join(VerifDir(), "replays", r.Prop)
+	dir := filepath.Join(OutDir(), "replays", r.Prop)
 	_ = os.MkdirAll(dir, 0o755)
 	path := filepath.Join(dir, hex.EncodeToString(sum[:6])+".json")
 	_ = os.WriteFile(path, b, 0o644)
@@ -180,7 +189,7 @@ func (r *Run) Finish() int {
 		ev["assumptions"] = []string{}
 	}
 	b, _ := json.MarshalIndent(ev, "", " ")
-	dir := filepath.Join(VerifDir(), "evidence")
+	dir := filepath.Join(OutDir(), "evidence")
 	_ = os.MkdirAll(dir, 0o755)
 	if err := os.WriteFile(filepath.Join(dir, r.Prop+".json"), append(b, '\n'), 0o644); err != nil {
 		r.HarnessError(err.Error())
